@@ -24,6 +24,7 @@ EXPRS = [
     # texts that differ only in white space inside a string literal (different expressions), and only outside one (same meaning)
     '//span[@t = "a b"]', '//span[@t = "a  b"]', '//span[@t="a b"]', '//span[contains(@t, " b")]', '//span[contains(@t, "  b")]',
 ]
+EXPRS += ['//span[contains(@t, @u)]', '//*[contains(@n, @m)]', '//span[concat(@u, "") = @t]', '//span[contains(text(), @u)]']     # arguments that depend on the context element
 EXPRS += ['//span//span', '//div//div', '/div//div', '/div/span//span', '//div/span', '/div/span']     # the same name first and later in a path
 WS_PAIRS = [('//span[@t = "a b"]', '//span[@t = "a  b"]'), ('//span[contains(@t, " b")]', '//span[contains(@t, "  b")]'),
             ('//span[@t = "a b"]', '//span[@t="a b"]')]
@@ -35,6 +36,8 @@ DOCS = [
     '<div n="1"><p n="2"><span n="3" class="x">t</span><span n="4">u</span></p><p n="5"><span n="6">u</span></p></div>',
     '<div n="1"><span n="2" t="a b">t</span><span n="3" t="a  b">u</span><span n="4" t="ab">v</span></div>',
     '<div n="1"><span n="2">a<span n="3">b<span n="4">c</span></span></span><div n="5"><div n="6"><span n="7">d</span></div></div></div>',
+    '<div n="1" m="1"><span n="12" m="2" t="a b" u="a">xa</span><span n="3" m="4" t="zz" u="q">y</span></div>',
+    '<div n="5" m="9"><span n="7" m="1" t="q" u="q">xq</span><span n="21" m="1" t="ab" u="b">a</span></div>',
 ]
 
 _state = {}
@@ -161,7 +164,7 @@ class C15(core.Check):
             'executed on the real global cache and on the model; after every event: result (uid ranks or exception class), '
             'recency list, table keys, lock state. Family (a): every sequence of <=4 (quick) / <=6 (thorough, all of them) events over '
             '5 texts with the bounds shrunk to 3/1 in the harness process; (b) random sequences of 300 (quick) / 2000 events '
-            'over 51 texts (valid, not compiling, failing at run time, pairs differing only in white space inside / outside a string literal) x 7 trees at the shipped bounds; the cache-less table recomputed by fresh interpreters that meet the texts in reversed / shuffled order; (c) 2-16 real threads with '
+            'over 55 texts (valid, not compiling, failing at run time, pairs differing only in white space inside / outside a string literal) x 9 trees at the shipped bounds; the cache-less table recomputed by fresh interpreters that meet the texts in reversed / shuffled order; (c) 2-16 real threads with '
             'switch interval 1e-6 compared with the sequential cache-less results (oracle only). non-trivial = the cache '
             'state changes at least once; distinct by event list and bounds')
     TRUSTED = ['SHA-1 collision freeness of cache keys (the model keys the cache by the text)',
@@ -214,6 +217,13 @@ class C15(core.Check):
             for x, y in ((ia, ib), (ib, ia)):
                 cases.append(dict(bounds=list(st['shipped']), events=[['eval', x, wsdoc], ['eval', y, wsdoc], ['new', 0, x], ['new', 1, y],
                                                                      ['evalobj', 0, wsdoc], ['evalobj', 1, wsdoc], ['eval', x, wsdoc]]))
+        # (b+) expressions whose function arguments depend on the context element, one compiled object evaluated on different trees
+        for e in ('//span[contains(@t, @u)]', '//*[contains(@n, @m)]', '//span[concat(@u, "") = @t]', '//span[contains(text(), @u)]'):
+            k = EXPRS.index(e)
+            da, db = len(DOCS) - 2, len(DOCS) - 1
+            for x, y in ((da, db), (db, da)):
+                cases.append(dict(bounds=list(st['shipped']), events=[['new', 0, k], ['evalobj', 0, x], ['evalobj', 0, y], ['eval', k, x], ['eval', k, y],
+                                                                     ['new', 1, k], ['evalobj', 1, y], ['evalobj', 0, x]]))
         # (b'') the cache-less results themselves must not depend on what the process compiled before: a fresh interpreter that meets the
         # texts in another order (reversed; shuffled) must produce the same table (oracle only)
         perm = list(range(len(EXPRS)))
